@@ -285,6 +285,17 @@ func (vc *VC) evalSpec(env *Env, e SExpr) Val {
 		for _, vd := range x.Vars {
 			qnames = append(qnames, "q_"+vd.Name)
 		}
+		if len(x.Trig) > 0 {
+			var ts []string
+			for _, te := range x.Trig {
+				ts = append(ts, vc.evalSpec(q, te).T)
+			}
+			pat := strings.Join(ts, " ")
+			if x.Forall {
+				return Val{T: fmt.Sprintf("(forall (%s) (! %s :pattern (%s)))", strings.Join(decls, " "), Implies(And(ranges...), body.T), pat), Typ: types.Typ[types.Bool]}
+			}
+			return Val{T: fmt.Sprintf("(exists (%s) (! %s :pattern (%s)))", strings.Join(decls, " "), And(append(ranges, body.T)...), pat), Typ: types.Typ[types.Bool]}
+		}
 		if x.Forall {
 			inner := Implies(And(ranges...), body.T)
 			if pat := autoPattern(inner, qnames); pat != "" {
@@ -603,6 +614,10 @@ func (vc *VC) evalSpecCall(env *Env, x *SCall) Val {
 		return vc.specErr("fresh of %s", v.Typ)
 	case "base":
 		return Val{T: App("sl.base", arg(0).T), Typ: types.Typ[types.UnsafePointer]}
+	case "runecount":
+		// the value utf8.RuneCount returns for the bytes of a slice (abstract, 0 <= r <= len)
+		v := arg(0)
+		return Val{T: vc.runeCountTerm(env.st.H["Int"], v.T), Typ: intT}
 	case "root":
 		// allocation identity of the object a slice/pointer points into
 		v := arg(0)
@@ -685,7 +700,27 @@ func (vc *VC) callAbstract(env *Env, pf *PureFunc, x *SCall) Val {
 		args = append(args, a.T)
 		sorts = append(sorts, vc.sorts.SortOf(t))
 	}
+	readsBytes := false
 	for _, r := range pf.Reads {
+		if r == "bytes" {
+			readsBytes = true
+		}
+	}
+	if readsBytes {
+		// the function depends on the CONTENT of its integer-element slice
+		// parameters only (not on unrelated memory of the same heap)
+		for i, p := range pf.Params {
+			t := vc.resolveTypeAt(env, pf.File, p.Type)
+			if sl, ok := t.Underlying().(*types.Slice); ok && vc.sorts.SortOf(sl.Elem()) == "Int" {
+				args = append(args, App("content_", env.st.H["Int"], args[i]))
+				sorts = append(sorts, "(Array Int Int)")
+			}
+		}
+	}
+	for _, r := range pf.Reads {
+		if r == "bytes" {
+			continue
+		}
 		args = append(args, env.st.H[r])
 		sorts = append(sorts, "(Array Loc "+r+")")
 	}
